@@ -324,6 +324,17 @@ func c13Lookup(x *X) {
 				}
 			}
 			x.defBool("lookupSelfRedirectContinues", skips)
+			// the skipped target is dropped before the loop goes on
+			clears := false
+			for _, s := range is.Body.List {
+				if x.src(s) == "target = nil" {
+					clears = true
+				}
+				if br, ok := s.(*ast.BranchStmt); ok && br.Tok == token.CONTINUE {
+					break
+				}
+			}
+			x.defBool("lookupSkipClearsTarget", clears)
 		}
 		return true
 	})
